@@ -138,6 +138,17 @@ func c01Enumerate(tier string, seed int64, emit func(string, any)) {
 			emit("contexts", c01Case{Pre: c03Prelude, Srcs: []string{src, src}, Cfg: d})
 		}
 	}
+	// (iv') the valid-program x separator x broken-tail grid of C03 (abandoned alternatives leave parse-time state behind)
+	for _, p := range c03Programs {
+		for _, sep := range []string{"", " "} {
+			for _, t := range c03Tails {
+				emit("program+tail", c01Case{Pre: c03Prelude, Srcs: []string{p + sep + t}, Cfg: cfgs[0]})
+			}
+			for _, t := range c03CompoundTails {
+				emit("program+tail", c01Case{Pre: c03Prelude, Srcs: []string{p + sep + t}, Cfg: cfgs[0]})
+			}
+		}
+	}
 	// (v) histories: ordered pairs on one VM
 	gen.Histories(func(a, b string) {
 		emit("histories", c01Case{Srcs: []string{a, b}, Cfg: cfgs[0]})
